@@ -4,6 +4,7 @@ use crate::pb;
 use passage_adapters_grpc::{GrpcDiscoveryAdapter, GrpcStrategyAdapter};
 use serde_json::{Value, json};
 use std::sync::{Arc, Mutex};
+use tokio_stream::StreamExt;
 use tokio_stream::wrappers::TcpListenerStream;
 use tonic::{Request, Response, Status};
 
@@ -163,7 +164,13 @@ impl Worker {
         let server = tonic::transport::Server::builder()
             .add_service(pb::discovery_server::DiscoveryServer::new(svc.clone()))
             .add_service(pb::strategy_server::StrategyServer::new(svc))
-            .serve_with_incoming(TcpListenerStream::new(listener));
+            .serve_with_incoming(TcpListenerStream::new(listener).map(|conn| {
+                // no Nagle/delayed-ACK stalls on the reply path (latency only; content is unaffected)
+                if let Ok(c) = &conn {
+                    let _ = c.set_nodelay(true);
+                }
+                conn
+            }));
         tokio::spawn(async move {
             if let Err(e) = server.await {
                 eprintln!("mock gRPC server stopped: {e}");
